@@ -251,6 +251,7 @@ func driveEvm(c Case) Obs {
 	o := Obs{Deps: make([][]DepObs, len(c.Events))}
 	retry := c.Path == "EvmRetryV1"
 	fpt := newFpTable()
+	lastFpt = fpt
 	cl := &evmClient{receipts: map[common.Hash]*ethTypes.Receipt{}}
 	ps := propStore{st: map[[2]uint64]string{}}
 	retryEvent := bridgeABI.Events["Retry"]
@@ -423,6 +424,7 @@ func driveSub(c Case) Obs {
 	retry := c.Path == "SubRetry"
 	conn := &subConn{blocks: map[uint64][]*parser.Event{}}
 	fpt := newFpTable()
+	lastFpt = fpt
 	for i, e := range c.Events {
 		o.Deps[i] = make([]DepObs, len(e.Deps))
 		var evs []*parser.Event
@@ -543,6 +545,7 @@ func driveBtc(c Case) Obs {
 	ch := make(chan []*message.Message, 512)
 	h := btclistener.NewFungibleTransferEventHandler(zerolog.Nop().With(), sourceDomain, btclistener.NewBtcDepositHandler(), ch, conn, res, feeAddr)
 	fpt := newFpTable()
+	lastFpt = fpt
 	back := map[uint64]uint64{} // the real nonce (hash of block number and tx hash) -> the transaction's number in the case
 	for i, e := range c.Events {
 		o.Deps[i] = make([]DepObs, len(e.Deps))
@@ -565,6 +568,10 @@ func driveBtc(c Case) Obs {
 	consume(&o, ch, func(n uint64) uint64 { return back[n] }, fpt)
 	return o
 }
+
+// lastFpt: the content numbering of the last case driven in this process (conc.go numbers what its
+// concurrent calls returned by the table of the sequential reference run).
+var lastFpt *fpTable
 
 func drive(c Case) Obs {
 	c = normalise(c)
